@@ -42,23 +42,19 @@ def genEnv {α : Type} [R α] (ofInt : Int → α) (nan : α) (hasData : Box →
 
 theorem xminStep_spec (a b c d x y : Int) (xw yw n0 n1 : Nat) :
     xminStep a b c d x y xw yw n0 n1 = min a (max 0 (x - ((xw / 2 : Nat) : Int))) := by
-  simp only [xminStep]
-  first | omega | grind
+  simp only [xminStep, xminStepHand] <;> (first | omega | grind)
 
 theorem xmaxStep_spec (a b c d x y : Int) (xw yw n0 n1 : Nat) :
     xmaxStep a b c d x y xw yw n0 n1 = max b (min (n0 : Int) (x + ((xw / 2 : Nat) : Int) + 1)) := by
-  simp only [xmaxStep]
-  first | omega | grind
+  simp only [xmaxStep, xmaxStepHand] <;> (first | omega | grind)
 
 theorem yminStep_spec (a b c d x y : Int) (xw yw n0 n1 : Nat) :
     yminStep a b c d x y xw yw n0 n1 = min c (max 0 (y - ((yw / 2 : Nat) : Int))) := by
-  simp only [yminStep]
-  first | omega | grind
+  simp only [yminStep, yminStepHand] <;> (first | omega | grind)
 
 theorem ymaxStep_spec (a b c d x y : Int) (xw yw n0 n1 : Nat) :
     ymaxStep a b c d x y xw yw n0 n1 = max d (min (n1 : Int) (y + ((yw / 2 : Nat) : Int) + 1)) := by
-  simp only [ymaxStep]
-  first | omega | grind
+  simp only [ymaxStep, ymaxStepHand] <;> (first | omega | grind)
 
 theorem genEnv_stepLaws {α : Type} [R α] (oi : Int → α) (nan : α) (hd : Box → Par α → Bool)
     (np : Box → List (Comp α) → Nat) (opt : Box → List (Comp α) → List (Par α))
@@ -88,7 +84,8 @@ theorem vary_table (stage : Nat) :
     varyAmp stage = true ∧ (varyXo stage = true ↔ 2 ≤ stage) ∧ (varyYo stage = true ↔ 2 ≤ stage) ∧
     (varySx stage = true ↔ 3 ≤ stage) ∧ (varySy stage = true ↔ 3 ≤ stage) ∧
     (varyTheta stage = true ↔ 3 ≤ stage) ∧ varyFlags stage = false := by
-  simp only [varyAmp, varyXo, varyYo, varySx, varySy, varyTheta, varyFlags, decide_eq_true_eq, ge_iff_le]
+  simp only [varyAmp, varyXo, varyYo, varySx, varySy, varyTheta, varyFlags, varyAmpHand, varyPosHand, varyShapeHand,
+    varyFlagsHand, decide_eq_true_eq, ge_iff_le]
   first | trivial | omega | grind
 
 /-- the table at the three documented stages -/
@@ -104,8 +101,8 @@ theorem copy_iff_not_varied (stage : Nat) :
     (copyPosErr stage = true ↔ varyXo stage = false) ∧ (copyPosErr stage = true ↔ varyYo stage = false) ∧
     (copyShapeErr stage = true ↔ varySx stage = false) ∧ (copyShapeErr stage = true ↔ varySy stage = false) ∧
     (copyShapeErr stage = true ↔ varyTheta stage = false) := by
-  simp only [copyPosErr, copyShapeErr, varyXo, varyYo, varySx, varySy, varyTheta, decide_eq_true_eq,
-    decide_eq_false_iff_not, ge_iff_le]
+  simp only [copyPosErr, copyShapeErr, varyXo, varyYo, varySx, varySy, varyTheta, copyPosErrHand, copyShapeErrHand,
+    varyPosHand, varyShapeHand, decide_eq_true_eq, decide_eq_false_iff_not, ge_iff_le]
   first | omega | grind
 
 section island
@@ -369,13 +366,13 @@ theorem errors_copied (im : Img) (stage : Nat) (isle : List (Src ℝ)) (k : Nat)
     rw [ho]
     apply copyBack_pos
     show copyPosErr stage = true
-    simp only [copyPosErr, decide_eq_true_eq]
+    simp only [copyPosErr, copyPosErrHand, decide_eq_true_eq]
     first | omega | grind
   · intro hst
     rw [ho]
     apply copyBack_shape
     show copyShapeErr stage = true
-    simp only [copyShapeErr, decide_eq_true_eq]
+    simp only [copyShapeErr, copyShapeErrHand, decide_eq_true_eq]
     first | omega | grind
 
 /-- Full statement wanted: *parameters the stage does not free come back equal to the input values*
